@@ -352,6 +352,13 @@ impl C18 {
             3 => Some(gen_slts_case(g, tier, false)),
             _ => None,
         };
+        // a fifth of the train cases carry a default hybrid locomotive as well
+        let train = train.map(|mut t: TrainCase| {
+            if !t.train.dummy && g.bool(0.2) {
+                t.train.hybrids = 1;
+            }
+            t
+        });
         let corridor = match kind {
             4 => Some(gen_dispatch_case(g, 2, &CorridorOpts { max_stages: 6, p_branch: 0.3, ..Default::default() })),
             5 => {
